@@ -347,7 +347,11 @@ func (ft *FT) loopCtx(li *loopInfo, st *State, ov map[ssa.Value]Term, pre *State
 	base := ft.specCtx(st, ft.entry)
 	base.pre = pre
 	shadow := ft.shadowHeader(li, ov, st)
-	base.local = ft.localResolver(li.header, true, shadow, ov, base.local)
+	fallback := base.local
+	base.local = ft.localResolver(li.header, true, shadow, ov, fallback)
+	if li.entryOv != nil && pre != nil {
+		base.preLocal = ft.localResolver(li.header, true, ft.shadowHeader(li, li.entryOv, pre), li.entryOv, fallback)
+	}
 	return base
 }
 
